@@ -34,7 +34,22 @@ pub enum CompileOutcome {
 }
 
 /// Compile with the clock bracketed so that `now` is the exact embedded second.
+/// A refused compilation that got as far as emitting a time test, a matcher, a printer and an
+/// action before the unsupported construct: run before some of the compilations under test, on
+/// the same thread, so that state leaking out of a failed call becomes visible.
+pub fn poison_compile() {
+    let t = E::and(
+        E::and(E::and(E::T(Tst::Time(Which::M, Cmp::Gt, 1, TUnit::D)), E::T(Tst::Name("poison*".into()))), E::and(E::A(Act::Print), E::A(Act::FPrint("poison.out".into())))),
+        E::or(E::A(Act::Printf(vec![FEl::F(Fld::Name)])), E::T(Tst::U(UTest::User("bob".into())))),
+    );
+    let x = to_ast(&t);
+    let _ = catch(|| compile(&x, &RunOptions::default()).map(|c| c.scheme("/poison")));
+}
+
 pub fn compile_tree(e: &E, threads: Option<u32>, device: &str) -> CompileOutcome {
+    if crate::util::stable_hash(&(e, threads)) % 8 == 0 {
+        poison_compile();
+    }
     let x = to_ast(e);
     let mut opts = RunOptions::default();
     opts.threads = threads;
